@@ -33,7 +33,7 @@ def shards(tier, seed):
 
 def floors(tier):
     f = {"solves": 70, "solves:default_construction": 3, "entries:checked": 120, "entries:graph_differs_from_target": 30, "generates:branches": 200,
-         "generates:compiles": 300, "entries:with_conversion_gates": 20, "targets:permuted_node_insertion_order": 5, "result_table:sorted": 30}
+         "generates:compiles": 300, "entries:with_conversion_gates": 20, "targets:permuted_node_insertion_order": 5, "result_table:sorted": 30, "solves:with_explicit_empty_noise_map": 8}
     for mth in METHODS:
         f["method:" + str(mth)] = 3
     return f
@@ -122,7 +122,14 @@ def check_case(cseed, nmax, ctx, m, mon, state):
         if default:
             solver = AlternateTargetSolver(target)
         else:
-            solver = AlternateTargetSolver(target, solver_setting=AlternateTargetSolverSetting(**setting), seed=seed)
+            nkw = {}
+            if n <= 5 and (int(A.sum()) + (seed or 0) + len(repr(setting))) % 4 == 0:
+                # an explicit, empty noise map: the solver then returns the copies made by assign_noise (scored by the noise
+                # compiler); with nothing in the map they must generate the relabelled target like any other entry
+                nkw = {"noise_model_mapping": {"e": {}, "p": {}, "ee": {}, "ep": {}}}
+                ctx.count("solves:with_explicit_empty_noise_map")
+                case["noise_model_mapping"] = "explicit empty dict"
+            solver = AlternateTargetSolver(target, solver_setting=AlternateTargetSolverSetting(**setting), seed=seed, **nkw)
         mon.pop_runs()
         results = solver.solve()
     except AssertionError as e:
